@@ -304,66 +304,71 @@ func eqFacts(b *ssa.BasicBlock) [][2]ssa.Value {
 			continue
 		}
 		g = g.norm()
-		c, ok := g.Cond.(*ssa.Call)
-		if !ok || c.Call.IsInvoke() {
-			continue
+		if c, ok := g.Cond.(*ssa.Call); ok {
+			out = append(out, helperOutcomeEqs(c, g.Pol)...)
 		}
-		h := c.Call.StaticCallee()
-		if h == nil || h.Blocks == nil || h.Pkg == nil || c.Parent() == nil || funcPkgPath(h) != funcPkgPath(c.Parent()) || len(c.Call.Args) != len(h.Params) {
-			continue
+	}
+	return out
+}
+
+// helperOutcomeEqs: the equalities that hold whenever the boolean helper call c answered pol (see eqFacts).
+func helperOutcomeEqs(c *ssa.Call, pol bool) [][2]ssa.Value {
+	var out [][2]ssa.Value
+	if c.Call.IsInvoke() {
+		return nil
+	}
+	h := c.Call.StaticCallee()
+	if h == nil || h.Blocks == nil || h.Pkg == nil || c.Parent() == nil || funcPkgPath(h) != funcPkgPath(c.Parent()) || len(c.Call.Args) != len(h.Params) {
+		return nil
+	}
+	back := func(v ssa.Value) ssa.Value {
+		w := v
+		for {
+			if cv, okc := w.(*ssa.Convert); okc {
+				w = cv.X
+				continue
+			}
+			break
 		}
-		back := func(v ssa.Value) ssa.Value {
-			conv := false
-			w := v
-			for {
-				if cv, okc := w.(*ssa.Convert); okc {
-					w, conv = cv.X, true
-					continue
-				}
-				break
-			}
-			_ = conv
-			for i, pa := range h.Params {
-				if ssa.Value(pa) == w {
-					return c.Call.Args[i]
-				}
-			}
-			return v
-		}
-		var common map[[2]ssa.Value]bool
-		for _, ret := range returnsOf(h) {
-			res := retResults(ret)
-			if len(res) != 1 {
-				common = nil
-				break
-			}
-			gs := guardsOfRaw(ret.Block())
-			if bv, isb := constBool(res[0]); isb {
-				if bv != g.Pol {
-					continue
-				}
-			} else {
-				gs = append(gs, Guard{Cond: res[0], Pol: g.Pol})
-			}
-			here := map[[2]ssa.Value]bool{}
-			for _, hg := range expandGuards(gs) {
-				if op, x, y, ok := cmpFact(hg); ok && op == token.EQL {
-					here[[2]ssa.Value{back(x), back(y)}] = true
-				}
-			}
-			if common == nil {
-				common = here
-			} else {
-				for k := range common {
-					if !here[k] {
-						delete(common, k)
-					}
-				}
+		for i, pa := range h.Params {
+			if ssa.Value(pa) == w {
+				return c.Call.Args[i]
 			}
 		}
-		for k := range common {
-			out = append(out, k)
+		return v
+	}
+	var common map[[2]ssa.Value]bool
+	for _, ret := range returnsOf(h) {
+		res := retResults(ret)
+		if len(res) != 1 {
+			return nil
 		}
+		gs := guardsOfRaw(ret.Block())
+		if bv, isb := constBool(res[0]); isb {
+			if bv != pol {
+				continue
+			}
+		} else {
+			gs = append(gs, Guard{Cond: res[0], Pol: pol})
+		}
+		here := map[[2]ssa.Value]bool{}
+		for _, hg := range expandGuards(gs) {
+			if op, x, y, ok := cmpFact(hg); ok && op == token.EQL {
+				here[[2]ssa.Value{back(x), back(y)}] = true
+			}
+		}
+		if common == nil {
+			common = here
+		} else {
+			for k := range common {
+				if !here[k] {
+					delete(common, k)
+				}
+			}
+		}
+	}
+	for k := range common {
+		out = append(out, k)
 	}
 	return out
 }
